@@ -51,7 +51,7 @@ func twoUDef(x1, x2 []float64) int {
 func incValues(rng *mon.Rand, k int) []float64 {
 	for try := 0; try < 8; try++ {
 		v := make([]float64, k)
-		kind := rng.Intn(7)
+		kind := rng.Intn(10)
 		var x float64
 		switch kind {
 		case 0:
@@ -68,6 +68,24 @@ func incValues(rng *mon.Rand, k int) []float64 {
 			x = rng.Uniform(-1e-3, 1e-3)
 		case 6: // distinct but nearly equal: neighbouring floats, a few ulps apart
 			x = rng.Pick(0.3, 1, -1, 1e6, -7.25e-5, rng.Uniform(-100, 100))
+		case 7: // consecutive integers that include 0 (the samples then hold +0 and -0, which are equal)
+			x = -float64(rng.Intn(k))
+		case 8: // the ends of the float64 range, including +-MaxFloat64 themselves
+			if rng.Bool() {
+				x = -math.MaxFloat64
+			} else {
+				// descend from MaxFloat64 in steps of 1..3 ulps, then reverse
+				t := math.MaxFloat64
+				for i := k - 1; i >= 0; i-- {
+					v[i] = t
+					for u := 1 + rng.Intn(3); u > 0; u-- {
+						t = math.Nextafter(t, 0)
+					}
+				}
+				return v
+			}
+		case 9: // subnormals and the smallest normals
+			x = float64(rng.Intn(5)) * math.SmallestNonzeroFloat64 * rng.Pick(1, -1, 1e3)
 		}
 		ok := true
 		for i := 0; i < k; i++ {
@@ -82,12 +100,14 @@ func incValues(rng *mon.Rand, k int) []float64 {
 				step = math.Abs(x) * rng.LogUniform(1e-9, 1e-1)
 			case 4:
 				step = rng.LogUniform(1e-12, 1e-3)
-			case 6:
+			case 6, 8, 9:
 				nx := x
 				for u := 1 + rng.Intn(3); u > 0; u-- {
 					nx = math.Nextafter(nx, math.Inf(1))
 				}
 				step = nx - x
+			case 7:
+				step = 1
 			default:
 				step = rng.LogUniform(1e-300, 1e-3)
 			}
@@ -120,6 +140,8 @@ func samplesFromAlloc(rng *mon.Rand, T, r []int, vals []float64) (x1, x2 []float
 			x2 = append(x2, vals[k])
 		}
 	}
+	flipZeros(rng, x1)
+	flipZeros(rng, x2)
 	rng.ShuffleF(x1)
 	rng.ShuffleF(x2)
 	return
@@ -140,4 +162,14 @@ func sumInts(xs []int) int {
 		s += x
 	}
 	return s
+}
+
+// flipZeros gives every zero of xs a random sign: +0 and -0 are equal values
+// (they tie with each other), although their bit patterns differ.
+func flipZeros(rng *mon.Rand, xs []float64) {
+	for i, x := range xs {
+		if x == 0 && rng.Bool() {
+			xs[i] = math.Copysign(0, -1)
+		}
+	}
 }
